@@ -46,7 +46,7 @@ func wr(parts ...ast.Node) ast.Node {
 	}
 	return ast.Call{Fn: "write", Args: []ast.Node{e}}
 }
-func sl(s string) ast.Node   { return ast.StrLit{V: s} }
+func sl(s string) ast.Node    { return ast.StrLit{V: s} }
 func toa(e ast.Node) ast.Node { return ast.Call{Fn: "toa", Args: []ast.Node{e}} }
 
 // consumer builds the traced consuming statement(s) for pipelines ps (1 = plain loop, 2 = zip).
@@ -439,8 +439,8 @@ func c02Diff(ctx *core.Ctx, idx int) core.Result {
 
 func init() {
 	register(&core.Property{
-		ID: "C02",
-		Rule: "(1) trace family: random generator pipelines of depth 0..3 over a calc-written combinator library (leaf fromto/elems/counting/recursive generators, map, filter, chain, take with early return, nest) whose every yield is bracketed by trace writes, consumed by a plain or zipped for loop whose body does temp-register arithmetic, calls or its own loop, optionally returns at the k-th iteration, placed at top level, in a function, at recursion depth 1..30, or after other loops of the same statement (recycled contexts); plain/tight/pregrown allocation, REPL and script mode; the recorded event trace is checked against the stack/alternation/abandon laws and against a list model of the pipeline. (2) diff family: the same pipelines untraced and generator-heavy typed sessions against the reference semantics with residue checks. non-trivial = trace of >= 8 events / session with >= 1 yield and >= 25 reference steps.",
+		ID:          "C02",
+		Rule:        "(1) trace family: random generator pipelines of depth 0..3 over a calc-written combinator library (leaf fromto/elems/counting/recursive generators, map, filter, chain, take with early return, nest) whose every yield is bracketed by trace writes, consumed by a plain or zipped for loop whose body does temp-register arithmetic, calls or its own loop, optionally returns at the k-th iteration, placed at top level, in a function, at recursion depth 1..30, or after other loops of the same statement (recycled contexts); plain/tight/pregrown allocation, REPL and script mode; the recorded event trace is checked against the stack/alternation/abandon laws and against a list model of the pipeline. (2) diff family: the same pipelines untraced and generator-heavy typed sessions against the reference semantics with residue checks. non-trivial = trace of >= 8 events / session with >= 1 yield and >= 25 reference steps.",
 		Assumptions: []string{"the list model of a pipeline (map/filter/chain/take/nest/zip over constant leaves) is trusted; the trace laws themselves need no model of calc"},
 		Families: []core.Family{
 			{Name: "corpus", Count: func(string) int { return len(corpusSessions()) * 2 * len(stressModes) }, Run: func(_ *core.Ctx, idx int) core.Result { return corpusCase("C02", idx, true) }},
